@@ -45,7 +45,7 @@ theorem chunksOf_flatten {α} (n : Nat) (hn : 0 < n) : ∀ (fuel : Nat) (l : Lis
   | fuel + 1, l, h => by
     unfold chunksOf
     by_cases he : l.isEmpty = true
-    · simp [he, List.isEmpty_iff.mp he]
+    · simp [List.isEmpty_iff.mp he]
     · simp only [he]
       have hne : l ≠ [] := by simpa [List.isEmpty_iff] using he
       have hpos : 0 < l.length := List.length_pos_iff.mpr hne
